@@ -67,7 +67,7 @@ RECURSIVE JV(_)
 JV(v) == CASE v.t = "null"  -> <<"n">>
            [] v.t = "true"  -> <<"t">>
            [] v.t = "false" -> <<"f">>
-           [] v.t = "num"   -> <<"#", v.n>>
+           [] v.t = "num"   -> IF v.s # <<>> THEN <<"#l", v.s>> ELSE <<"#", v.n>>    \* number given by its lexeme / by catalogue id
            [] v.t = "str"   -> <<"s", v.s>>
            [] v.t = "raw"   -> <<"r", v.s>>
            [] v.t = "arr"   -> <<"a", [i \in DOMAIN v.m |-> JV(v.m[i].v)]>>
